@@ -63,8 +63,10 @@ def cases(draw, tier="quick"):
                     cands = [c for c in cands if PARAM_RANK[c] <= rank]
                 ps.append(["vis", draw(st.sampled_from(cands))])
         if f in E.STRUCT_FEATURES and S.chance(draw, 0.45):
-            sn = draw(st.sampled_from(["My%sStruct" % f.capitalize(), "It_%s" % f, "Σ%s" % f.capitalize()]))
-            if sn not in used:
+            fn_names = [p_[1] for ff in feats for p_ in ff["params"] if p_[0] == "name"] + [p_[1] for p_ in ps if p_[0] == "name"]
+            sn = draw(st.sampled_from(["My%sStruct" % f.capitalize(), "It_%s" % f, "Σ%s" % f.capitalize()] + fn_names[-2:] + [f, "MIN"]))
+            # a module-level struct may share its name with an associated fn / const (different namespaces)
+            if sn not in used or sn in fn_names:
                 used.add(sn)
                 ps.append(["struct_name", sn])
         feats.append({"f": f, "params": ps})
